@@ -6,7 +6,7 @@ def clip(s, n):
     s = ' '.join(str(s).split()).replace('|', '\\|')
     return s if len(s) <= n else s[:n - 1].rstrip() + '…'
 rows = []
-for d in sorted(glob.glob(f'{root}/seeded/*/')):
+for d in sorted(glob.glob(f'{root}/seeded/C*/')):
     name = os.path.basename(d.rstrip('/'))
     try:
         m = json.load(open(d + 'meta.json'))
